@@ -75,7 +75,7 @@ struct Extractor : public RecursiveASTVisitor<Extractor> {
     llvm::raw_ostream& OS;
     bool first = true;
     std::map<const Decl*, int> declIds;
-    std::set<const Decl*> seenRecords, seenEnums, seenFuncs, seenVars;
+    std::set<const Decl*> seenRecords, seenEnums, seenFuncs, seenVars, seenPatterns;
     // per function
     std::map<const Stmt*, int> stmtIds;
     int nextStmt = 0;
@@ -696,6 +696,13 @@ struct Extractor : public RecursiveASTVisitor<Extractor> {
         std::string q = FD->getQualifiedNameAsString();
         if (!NameRe.match(q)) return true;
         if (!touchesOk(Body)) return true;
+        // optional (env SFX_ONE_INST): only the first instantiation of each template pattern
+        static const char* oneInst = getenv("SFX_ONE_INST");
+        if (oneInst && *oneInst) {
+            if (const FunctionDecl* Pat = FD->getTemplateInstantiationPattern()) {
+                if (!seenPatterns.insert(Pat->getCanonicalDecl()).second) return true;
+            }
+        }
         emitFunction(FD, Body);
         return true;
     }
